@@ -24,7 +24,7 @@ LEVEL = 'exploration'
 RULE = ('for every record layer (TlsRecord, SslRecord incl. hand-encoded three-byte-header records with padding, '
         'SshRecordInit/KexDH/KexDHGroup, MySQLRecord, TPKT, OpenVpnPacketWrapperTcp, the two LDAP StartTLS messages, '
         'PostgreSQL SslRequest) records are generated spec-first (registry strategies), composed, and (1) every '
-        'proper prefix of every record <= 4 KiB is parsed (longer records, quick <= 16 KiB, thorough <= 64 KiB: the '
+        'proper prefix of every record <= 4 KiB is parsed (longer records, quick <= 33 KiB, thorough <= 64 KiB: the '
         'first and last 64 prefixes and 512 evenly spaced ones), (2) sequences of 1-6 records are cut '
         'into delivery chunks - one cut is forced strictly inside the header / length field of (almost) every '
         'record, further cuts at generated offsets, at record boundaries and one byte around them - and read by '
@@ -50,6 +50,8 @@ ASSUMPTIONS = [
 ]
 
 QUICK_MAX_RECORD = 4096
+# the largest frame of the SSL 2.0 two-byte header (2 + 2^15-1) and of a TLS record (5 + 2^14 + 2048) fit
+QUICK_CEILING = 33 * 1024
 RANDOM32 = '5f000000' + '11' * 28
 # wire-conformant handshake messages the spec strategies cannot express (no object model for them)
 HANDSHAKE_HEX_POOL = [
@@ -619,7 +621,7 @@ def _job(arg):
 
 def _jobs(ctx):
     quick = ctx.quick
-    ceiling = 4 * QUICK_MAX_RECORD if quick else 65536 + 16
+    ceiling = QUICK_CEILING if quick else 65536 + 16
     budget_s = 75 if quick else 1500
     jobs = []
     layers = list(LAYERS) + ['SshProtocolMessage']
@@ -642,7 +644,7 @@ def run(ctx):
     jobs = _jobs(ctx)
     stats = pool.run_shards(_job, jobs)
     stats.extra['layers'] = sorted(LAYERS) + ['SshProtocolMessage (prefix-never-accepted only)']
-    stats.extra['record_ceiling_bytes'] = 4 * QUICK_MAX_RECORD if ctx.quick else 65536 + 16
+    stats.extra['record_ceiling_bytes'] = QUICK_CEILING if ctx.quick else 65536 + 16
     stats.extra['exhaustive_prefixes_up_to_bytes'] = EXHAUSTIVE_PREFIX_LIMIT
     return stats
 
